@@ -14,8 +14,9 @@ TRUSTED_BASE = [
     "E4: the dataclass-generated __init__ is modelled (fields from keyword arguments or defaults, then the real __post_init__)",
     "z3 5.1 (python API); cvc5 1.0.3 for obligations z3 leaves unknown",
     "distinct positions of a candle list hold distinct Candle objects (A3)",
-    "arithmetic lemmas used as hypotheses: (fill loop) strictly increasing bucket labels are bounded by the last label - induction on the distance, on paper; "
-    "(STDEV) the running-variance update - discharged as a `lemma` obligation on the abstraction of the clause",
+    "arithmetic lemmas used as hypotheses, each discharged as `lemma` obligations of the task that uses it: (fill loop) strictly increasing bucket labels are "
+    "bounded by the last label - induction on the distance, base and step obligations (only the induction principle over the naturals is external); "
+    "(STDEV) the running-variance update - a `lemma` obligation on the abstraction of the clause",
     "run-time contract check / counter-model replay (bounded, never counted as proved) execute the repository code under the tooling interpreter "
     "CPython 3.11 (hexital is pure python; the test-suite interpreter is 3.12) and judge float noise as uncertain",
 ]
